@@ -26,7 +26,7 @@ from detsim.sched import HarnessError, Scheduler
 PROP = "C13"
 LEVEL = "exploration"
 RUNS = {"quick": 4000, "thorough": 60000}
-BUDGET_S = {"quick": 90, "thorough": 1500}
+BUDGET_S = {"quick": 150, "thorough": 1500}
 RULE = ("each evaluation is one parse of the undamaged or the damaged stored chart with one "
         "selection. Distinct = distinct (file text, selection) digest; non-trivial = the "
         "selection is not None or the file is the damaged one. The reference observation comes "
